@@ -451,6 +451,12 @@ pub fn c16_case(env: &mut Env, rep: &mut Report, case_seed: u64, cfg: &C16Cfg) {
     rng.shuffle(&mut order);
     let mut next = 0;
     let mut parse_done = false;
+    // a solve request whose client vanished (connection reset while the service was looking the problem up):
+    // it may or may not have taken effect
+    let mut abort_at: Option<usize> = if !negative && rng.chance(1, 4) { Some(rng.below(STRATEGIES.len())) } else { None };
+    let mut maybe_requested: BTreeSet<String> = BTreeSet::new();
+    // since when (and for how many polls) each task has been reported as running without interruption
+    let mut running_since: BTreeMap<String, (std::time::Instant, u64)> = BTreeMap::new();
     loop {
         polls += 1;
         // every third poll goes through the list endpoint; the entry of this problem is judged the same way
@@ -493,6 +499,38 @@ pub fn c16_case(env: &mut Env, rep: &mut Report, case_seed: u64, cfg: &C16Cfg) {
             saw_running = true;
             rep.count("responses_with_running_tasks", 1);
         }
+        // "a task that has ended is not reported as still running", judged by progress and never by a deadline:
+        // when a task has been listed for 20 s and 500 polls, polling pauses for 5 s; if in that window the server
+        // process neither uses CPU time nor has a runnable thread (injected delays and stub latencies are below
+        // 0.5 s), nothing is being computed, so a task still listed afterwards has ended (or never existed)
+        running_since.retain(|t, _| obs.running.contains(t));
+        for t in &obs.running {
+            running_since.entry(t.clone()).or_insert((std::time::Instant::now(), 0)).1 += 1;
+        }
+        let stale: Vec<String> = running_since.iter().filter(|(_, (since, n))| since.elapsed().as_secs() >= 20 && *n >= 500).map(|(t, _)| t.clone()).collect();
+        if !stale.is_empty() {
+            rep.count("idle_server_probes", 1);
+            if server_idle_for(env.server.id(), 5000) {
+                let again = s.get(&path).ok().and_then(|r| r.json());
+                let still: Vec<String> = again
+                    .as_ref()
+                    .and_then(|b| b["running_tasks"].as_array())
+                    .map(|a| a.iter().map(|t| if t["type"].as_str() == Some("Parse") { "Parse".to_string() } else { t["content"].as_str().unwrap_or("?").to_string() }).collect())
+                    .unwrap_or_default();
+                let ghosts: Vec<&String> = stale.iter().filter(|t| still.contains(t)).collect();
+                if !ghosts.is_empty() {
+                    rep.violation(
+                        "task-reported-running-while-server-idle",
+                        format!("{:?} reported as running for more than 20 s although the server process used no CPU time and had no runnable thread for 5 s (aborted request in this case: {:?})", ghosts, maybe_requested),
+                        replay,
+                    );
+                    return;
+                }
+            }
+            for t in &stale {
+                running_since.remove(t);
+            }
+        }
         // bounded progress: a task that is neither running nor stored must get stored soon
         let mut expected: Vec<String> = requested.iter().cloned().collect();
         expected.push("Parse".into());
@@ -533,13 +571,38 @@ pub fn c16_case(env: &mut Env, rep: &mut Report, case_seed: u64, cfg: &C16Cfg) {
         if parse_done && !negative && next < order.len() {
             // issue the next solve, sometimes twice
             let st = order[next];
+            if abort_at == Some(next) {
+                abort_at = None;
+                // the lookup of the problem is slow, the client resets the connection in the middle of it
+                env.stub.set_latency("find", "adf-problems", 250);
+                let r = s.request_and_reset("PUT", &format!("/adf/{}/solve", enc(&name)), Body::Json(json!({"strategy": st})), 60);
+                std::thread::sleep(std::time::Duration::from_millis(rng.below(300) as u64));
+                env.stub.set_latency("find", "adf-problems", if cfg.delayed { 8 } else { 0 });
+                match r {
+                    Ok(()) => {
+                        rep.count("solve_requests_reset_by_the_client", 1);
+                        maybe_requested.insert(st.to_string());
+                    }
+                    Err(e) => rep.inconclusive.push(e),
+                }
+                continue;
+            }
             next += 1;
             match solve(&mut s, &name, st) {
                 Ok(r) => match r.status {
                     200 => {
                         requested.insert(st.to_string());
+                        if maybe_requested.contains(st) {
+                            // the reset request may have been carried out as well: possibly two tasks
+                            dups.insert(st.to_string());
+                        }
                     }
                     409 if requested.contains(st) => {}
+                    409 if maybe_requested.contains(st) => {
+                        // the reset request was carried out (running or already stored): its result is due
+                        rep.count("reset_solve_requests_that_took_effect", 1);
+                        requested.insert(st.to_string());
+                    }
                     other => {
                         rep.violation("solve-status", format!("solve {} -> {} {}", st, other, r.text()), replay);
                         return;
@@ -688,4 +751,43 @@ pub fn c16_case(env: &mut Env, rep: &mut Report, case_seed: u64, cfg: &C16Cfg) {
             }
         }
     }
+}
+
+
+/// true if, over `ms` milliseconds, the process used (almost) no CPU time and all of its threads were asleep at
+/// (almost) every sample: no computation is going on in it
+pub fn server_idle_for(pid: u32, ms: u64) -> bool {
+    fn sample(pid: u32) -> Option<(u64, bool)> {
+        let stat = std::fs::read_to_string(format!("/proc/{}/stat", pid)).ok()?;
+        let rest = &stat[stat.rfind(')')? + 2..];
+        let f: Vec<&str> = rest.split(' ').collect();
+        let cpu = f.get(11)?.parse::<u64>().ok()? + f.get(12)?.parse::<u64>().ok()?;
+        let mut all_sleeping = true;
+        for t in std::fs::read_dir(format!("/proc/{}/task", pid)).ok()? {
+            let t = t.ok()?;
+            let ts = std::fs::read_to_string(t.path().join("stat")).unwrap_or_default();
+            if let Some(p) = ts.rfind(')') {
+                if ts[p + 2..].chars().next().unwrap_or('?') != 'S' {
+                    all_sleeping = false;
+                }
+            }
+        }
+        Some((cpu, all_sleeping))
+    }
+    let Some((cpu0, _)) = sample(pid) else { return false };
+    let (mut samples, mut asleep) = (0u64, 0u64);
+    let t0 = std::time::Instant::now();
+    while (t0.elapsed().as_millis() as u64) < ms {
+        std::thread::sleep(std::time::Duration::from_millis(50));
+        match sample(pid) {
+            Some((_, a)) => {
+                samples += 1;
+                asleep += a as u64;
+            }
+            None => return false,
+        }
+    }
+    let Some((cpu1, _)) = sample(pid) else { return false };
+    // (clock ticks of 10 ms: at most 50 ms of CPU time in the window, asleep at 95% of the samples)
+    cpu1.saturating_sub(cpu0) <= 5 && samples >= 20 && asleep * 100 >= samples * 95
 }
